@@ -810,8 +810,9 @@ def derivers(unit):
             ins = set()
             rhs_ = x["ch"][1]
             r0_ = X.strip(rhs_)
-            if r0_ is not None and r0_.get("k") == "ref" and r0_.get("rk") == "local":
-                # the computed value first held in a local (compiled = compile(..); self->data = compiled;)
+            if r0_ is not None and r0_.get("k") == "ref" and r0_.get("rk") == "local" and r0_.get("tp"):
+                # the computed object first held in a pointer local (compiled = compile(..); self->data = compiled;) - a count
+                # that libc computed into an integer local is not a compiled form of the fields it was handed
                 ds_ = [y["ch"][1] for y in walk(g.body) if y.get("k") == "assign" and y.get("op") == "=" and (X.strip(y["ch"][0]) or {}).get("d") == r0_["d"]]
                 ds_ += [dc["init"] for y in walk(g.body) if y.get("k") == "decl" for dc in y.get("decls", ()) if dc["d"] == r0_["d"] and dc.get("init") is not None]
                 if len(ds_) == 1:
